@@ -394,8 +394,8 @@ class Interp:
                             env[nm] = sub[a.name]
             elif isinstance(n, ast.Import):
                 for a in n.names:
-                    if a.name == "math":
-                        env[a.asname or "math"] = FuncRef("<module>", "math")
+                    if a.name in ("math", "operator", "itertools", "functools"):
+                        env[a.asname or a.name] = FuncRef("<module>", a.name)
             elif isinstance(n, (ast.Assign, ast.AnnAssign)):
                 tgt = n.targets[0] if isinstance(n, ast.Assign) else n.target
                 if isinstance(tgt, ast.Name) and n.value is not None:
@@ -1658,6 +1658,26 @@ class Interp:
     # -- calls ------------------------------------------------------------------------
     def call(self, e: ast.Call, state: State, rel: str) -> Any:
         f = e.func
+        # dict.fromkeys(xs): the distinct elements in first-seen order (what list() of it gives)
+        if isinstance(f, ast.Attribute) and f.attr == "fromkeys" and isinstance(f.value, ast.Name) and f.value.id == "dict" and len(e.args) == 1 and not e.keywords:
+            xs = self.eval(e.args[0], state, rel)
+            if isinstance(xs, GenV):
+                xs = self.materialise(xs, state)
+            if isinstance(xs, ListV) and not xs.unknown and not xs.stores and not xs.unordered and all(not sg.binders and isinstance(sg.elem, Lin) for sg in xs.segs):
+                uniq: List[Any] = []
+                for sg in xs.segs:
+                    seen = False
+                    for u in uniq:
+                        d_ = compare(sg.elem, "==", u)
+                        if d_ is None:
+                            return Unknown("dict.fromkeys of values whose equality is not decided")
+                        if d_:
+                            seen = True
+                            break
+                    if not seen:
+                        uniq.append(sg.elem)
+                return ListV([Seg(u) for u in uniq])
+            return Unknown("dict.fromkeys of an unmodelled value")
         # method calls on lists
         if isinstance(f, ast.Attribute):
             recv = self.eval(f.value, state, rel)
@@ -1739,6 +1759,8 @@ class Interp:
             v = self.float_floor(args[0])
             if v is not None:
                 return v
+        if fn.module == "<operator>" and fn.name in ("index", "pos") and len(args) == 1 and isinstance(args[0], Lin):
+            return args[0]
         if fn.module.startswith("<"):
             return Unknown(f"{fn.module}.{fn.name}")
         hook = self.call_hooks.get(fn.name)
@@ -1926,7 +1948,7 @@ class Interp:
                 b = Sym(f"s{next(self.fresh)}", 0, n - 1)
                 return ListV([Seg(Lin.of(b) + a.lo.const, ((b, n),))])
             if isinstance(a, ListV):
-                return ListV([Seg(s.elem, s.binders) for s in a.segs], a.unknown)
+                return ListV([Seg(s.elem, s.binders) for s in a.segs], a.unknown, list(a.stores), a.alloc_len, a.alloc_elem, a.unordered)
             if isinstance(a, TableV):
                 return a
             return Unknown("list()")
